@@ -1,53 +1,62 @@
-import Driver.Pure
+import Driver.Registry
 /-
 zvdriver — replays harness lines "<op tokens> | <observed>" through the executable models and reports
 every line where the model's answer differs from what the real code produced.
   DIFF <lineno> expected=<model answer> :: <line>
-  BAD  <lineno> :: <line>            (line not understood — treated as a failure of the tie, never skipped)
+  BAD  <lineno> :: <line>            (line not understood — a failure of the tie, never skipped)
   SUMMARY lines=<n> diffs=<k> bad=<b>
+Lines starting with '#' are comments. A line without " | " is an operation with no observation
+(the model executes it, nothing is compared; its answer must still be `some`).
 -/
-open ZV ZV.Driver
+open ZV.Driver
 
 structure St where
+  objs  : List Obj
   lines : Nat := 0
   diffs : Nat := 0
   bad   : Nat := 0
 
-def pureHandlers : List (List String → Option String) := [purePow, pureRpc]
+def stepAll : List Obj → List String → Option (List Obj × String)
+  | [], _ => none
+  | o :: os, t =>
+    match o.step t with
+    | some (o', out) => some (o' :: os, out)
+    | none => (stepAll os t).map (fun (os', out) => (o :: os', out))
 
-def runPure (toks : List String) : Option String :=
-  pureHandlers.firstM (fun h => h toks)
-
-def splitObs (line : String) : Option (String × String) :=
+def splitObs (line : String) : String × Option String :=
   match line.splitOn " | " with
-  | [a, b] => some (a, b)
-  | _ => none
+  | [a] => (a, none)
+  | a :: rest => (a, some (" | ".intercalate rest))
+  | [] => (line, none)
+
+def stripEol (s : String) : String :=
+  String.ofList ((s.toList.reverse.dropWhile (fun c => c == '\n' || c == '\r')).reverse)
 
 partial def loop (h : IO.FS.Stream) (st : St) : IO St := do
   let line ← h.getLine
   if line.isEmpty then return st
-  let line := (line.dropRightWhile (fun c => c == '\n' || c == '\r'))
+  let line := stripEol line
   if line.isEmpty || line.startsWith "#" then
     loop h st
   else
     let st := { st with lines := st.lines + 1 }
-    match splitObs line with
+    let (op, obs) := splitObs line
+    let toks := (op.splitOn " ").filter (· ≠ "")
+    match stepAll st.objs toks with
     | none =>
       IO.println s!"BAD {st.lines} :: {line}"
       loop h { st with bad := st.bad + 1 }
-    | some (op, obs) =>
-      let toks := (op.splitOn " ").filter (· ≠ "")
-      match runPure toks with
-      | none =>
-        IO.println s!"BAD {st.lines} :: {line}"
-        loop h { st with bad := st.bad + 1 }
-      | some exp =>
+    | some (objs, exp) =>
+      let st := { st with objs := objs }
+      match obs with
+      | none => loop h st
+      | some obs =>
         if exp == obs then loop h st
         else
           IO.println s!"DIFF {st.lines} expected={exp} :: {line}"
           loop h { st with diffs := st.diffs + 1 }
 
 def main : IO UInt32 := do
-  let st ← loop (← IO.getStdin) {}
+  let st ← loop (← IO.getStdin) { objs := registry }
   IO.println s!"SUMMARY lines={st.lines} diffs={st.diffs} bad={st.bad}"
   return (if st.diffs == 0 && st.bad == 0 then 0 else 1)
